@@ -328,6 +328,9 @@ def fold_int(node: ast.AST, consts: Dict[str, int]) -> Optional[int]:
     if isinstance(node, ast.Call) and call_name(node) == ("abs",) and len(node.args) == 1:
         v = fold_int(node.args[0], consts)
         return None if v is None else abs(v)
+    if isinstance(node, ast.IfExp):
+        t = eval_test(node.test, consts)
+        return None if t is None else fold_int(node.body if t else node.orelse, consts)
     return None
 
 
